@@ -203,7 +203,8 @@ func (g *genState) clientCfg(i int, label string, mustCred bool) {
 			h.CfgName = fmt.Sprintf("alias-%d.example.test", i)
 		}
 		if h.Cfg == "host" && h.CfgName == "" {
-			h.AlsoDocker = chance(g.t, label+".alsodocker", 10)
+			h.AlsoDocker = chance(g.t, label+".alsodocker", 14)
+			h.StaleCfg = h.AlsoDocker && chance(g.t, label+".stalecfg", 50)
 		}
 		return
 	}
